@@ -618,6 +618,23 @@ def _gen_once(rng: random.Random, focus: str | None = None) -> dict:
                 feats.add("include_readds_ignored")
                 if fmt == ["sdist"]:
                     feats.add("include_readds_ignored_sdist_only")
+            # an entry for no format at all: 'format = []' selects the path for nothing - it must not fall back to the default formats
+            # and re-add the ignored file
+            if readd and p(0.3):
+                include.append({"path": rng.choice(readd), "format": []})
+                feats.add("include_for_no_format")
+
+    # an explicit include naming a bytecode file that is not in a cache directory (a bytecode-only module): it is in the formats it is
+    # named for, whatever .gitignore or the bytecode rule say about '*.pyc' in general
+    loose_pyc = [x for x in (pinfo.get("pyc") or []) if "__pycache__" not in x]
+    if loose_pyc and p(0.5):
+        include.append({"path": rng.choice(loose_pyc), "format": rng.choice([both(), both(), ["sdist"], "wheel"])})
+        feats.add("include_names_bytecode_file")
+    if p(0.06):
+        # the same for a path that nothing excludes: still in no format because of this entry alone
+        b.add("extra/unselected.txt")
+        include.append({"path": "extra/unselected.txt", "format": []})
+        feats.add("include_for_no_format")
 
     # ---- file scripts --------------------------------------------------------
     tool_scripts: dict = {}
